@@ -90,13 +90,55 @@ func runC14(c *Ctx) {
 			return true
 		}
 		var over, under *an.CondEdge
-		for _, e := range an.CondEdges(fn) {
-			e := e
-			if gt, ok := cmpGT(e.Fact, isC, isL); ok {
-				if gt {
-					over = &e
-				} else {
-					under = &e
+		gate := fn
+		find := func(f *ssa.Function, pc, pl func(ssa.Value) bool) {
+			for _, e := range an.CondEdges(f) {
+				e := e
+				if gt, ok := cmpGT(e.Fact, pc, pl); ok {
+					if gt {
+						over = &e
+					} else {
+						under = &e
+					}
+				}
+			}
+		}
+		find(fn, isC, isL)
+		if over == nil || under == nil {
+			// the two numbers are parked in fields of a struct of the package and compared by a helper whose result is returned
+			fieldOf := func(pred func(ssa.Value) bool) (string, bool) {
+				for _, b := range fn.Blocks {
+					for _, in := range b.Instrs {
+						if st, ok := in.(*ssa.Store); ok {
+							if fa, ok := st.Addr.(*ssa.FieldAddr); ok && pred(st.Val) {
+								return fa.X.Type().String() + "." + fieldNameOf(fa), true
+							}
+						}
+					}
+				}
+				return "", false
+			}
+			fc, okc := fieldOf(isC)
+			fl, okl := fieldOf(isL)
+			if okc && okl {
+				viaField := func(key string) func(ssa.Value) bool {
+					return func(v ssa.Value) bool {
+						fa, ok := loadAddr(an.Strip(v)).(*ssa.FieldAddr)
+						return ok && fa.X.Type().String()+"."+fieldNameOf(fa) == key
+					}
+				}
+				for _, r := range an.Returns(fn) {
+					if len(r.Results) != 1 {
+						continue
+					}
+					if call, ok := an.Strip(an.ReturnedValue(r, 0)).(*ssa.Call); ok {
+						if h := call.Call.StaticCallee(); h != nil && h.Pkg == fn.Pkg && len(h.Blocks) > 0 {
+							find(h, viaField(fc), viaField(fl))
+							if over != nil && under != nil {
+								gate = h
+							}
+						}
+					}
 				}
 			}
 		}
@@ -117,7 +159,7 @@ func runC14(c *Ctx) {
 			c.R.Check(okU, "ComplexityLimit/within-limit-edge", c.ipos(under.If), "complexity <= limit only reaches nil returns", whyU)
 			// and nothing but that edge lets an operation through: every nil return lies behind the comparison
 			okN, whyN := true, ""
-			for _, r := range an.Returns(fn) {
+			for _, r := range an.Returns(gate) {
 				if !isNilReturn(r, 0) {
 					continue
 				}
@@ -687,6 +729,7 @@ func c14GateSeesCoercedVariables(c *Ctx) {
 		}
 	}
 	n := 0
+	var createCoerced []ssa.Instruction
 	for _, fn := range fns {
 		var coerced []*ssa.Store
 		var others []*ssa.Store
@@ -725,6 +768,12 @@ func c14GateSeesCoercedVariables(c *Ctx) {
 				}
 			}
 		}
+		if fn == create {
+			for _, st := range coerced {
+				createCoerced = append(createCoerced, st)
+			}
+			createCoerced = append(createCoerced, helperCalls...)
+		}
 		for _, call := range an.CallsIn(fn, func(_ ssa.CallInstruction, ci an.CalleeInfo) bool {
 			return ci.FullName() == "("+pkgGraphql+".OperationContextMutator).MutateOperationContext"
 		}) {
@@ -741,6 +790,20 @@ func c14GateSeesCoercedVariables(c *Ctx) {
 				}
 			}
 			bad := ""
+			if dom == nil && fn != create {
+				// the loop over the mutators lives in a helper that does no coercion itself: what counts is where
+				// CreateOperationContext calls the helper
+				for _, site := range an.CallsIn(create, func(ci ssa.CallInstruction, _ an.CalleeInfo) bool { return ci.Common().StaticCallee() == fn }) {
+					if site.Parent() != create {
+						continue
+					}
+					for _, st := range createCoerced {
+						if an.Before(st, site) {
+							dom = st
+						}
+					}
+				}
+			}
 			if dom == nil {
 				bad = "the operation-context mutators (complexity limit among them) run before the variables were coerced: arguments bound to omitted variables with defaults are costed as absent, and an over-limit operation passes the gate"
 			} else {
